@@ -263,4 +263,26 @@ PROPS.update({
         assumptions=BATCH_ASSUME + ['floats treated as reals (total order on finite floats is exact)']),
 })
 
+PROPS.update({
+    'C17': dict(
+        level_text='Deductive proof: AgentCollector.collect builds a fresh dictionary holding exactly the non-empty '
+                   'per-agent results of the agents then in the environment (loop invariant over the agents dict), plus '
+                   'timestep / composite data when configured, appends it only when non-empty, and leaves every earlier '
+                   'record and dictionary untouched (frame over the whole dict store). FileCollector (append mode, '
+                   'clear on write): the invariant "text written ++ records held == everything collected, 0 <= last_write '
+                   '<= write_count" is preserved by execute() on both branches, the flush happens exactly when the '
+                   '(write_count + 1)-th collection since the last flush arrives, and write_records writes all held '
+                   'records in order (loop invariant over an abstract append-only file).',
+        level_note='Files are modelled as the list of records appended to them (no durability, no mid-write crash); user '
+                   'collect() / agent / composite functions are assumed pure appenders; reserved record keys must not '
+                   'collide with agent ids (stated precondition N3); the collector observes the state left by the '
+                   "timestep's systems because its default priority -1 is below the default 0 (C01).",
+        functions=['Collectors.Collector.__init__', 'Collectors.AgentCollector.collect',
+                   'Collectors.FileCollector.__init__', 'Collectors.FileCollector.execute',
+                   'Collectors.FileCollector.write_records'],
+        assumptions=['agentFunc / compositeFunc are pure functions of their argument',
+                     'Collector.collect (user code) only appends records to self.records',
+                     'open / write / close: append-only file text (no durability or crash model)']),
+})
+
 NOT_APPLICABLE = {}
